@@ -48,3 +48,21 @@ impl chess_api::ChessEngineTrait for ChessBot {
         self.board
     }
 }
+
+/// Verification hooks (compiled only with `--cfg rustyyato_chess_verif`): the fields are private
+/// and the only constructor is the `extern "C"` root-module export.
+#[cfg(rustyyato_chess_verif)]
+impl ChessBot {
+    pub fn verif_new() -> Self {
+        ChessBot {
+            three_fold: chess_engine::ThreeFold::new(),
+            board: Board::standard(),
+            engine: chess_engine::Engine::default(),
+        }
+    }
+
+    /// how often the repetition table has seen `board`
+    pub fn verif_seen(&self, board: &Board) -> u8 {
+        self.three_fold.get(board)
+    }
+}
